@@ -271,7 +271,8 @@ class Gen:
             w = self.pick_owned(P, lambda s: s[0] == "vec" and s[1] > K, lambda: ("vec", K + rng.randint(1, 2)))
             N = w.shape[1]
             I = rng.randint(0, N - K)
-            if I + K == N and I > 0 and rng.random() < 0.5:
+            if I + K == N:
+                # `slice<I, N>()` is ill-formed on a tvector<N> (ambiguous with the free function slice<I, N, T>)
                 P.decls.append("auto %s = %s.slice<%d>();" % (v, w.cxx, I))
             else:
                 P.decls.append("auto %s = %s.slice<%d, %d>();" % (v, w.cxx, I, I + K))
@@ -293,12 +294,15 @@ class Gen:
             va = P.fresh("va")
             P.decls.append("auto %s = map<%d, %s, %d, %d>(%s);" % (va, NV, cxx_type(sh), off, stride, w.cxx))
             i = rng.randrange(NV)
-            v = "%s[%d]" % (va, i)
+            # (the views are bound to names: a temporary view is not accepted as operand of the product expressions)
+            P.decls.append("auto %s = %s[%d];" % (v, va, i))
             cells = [(w.storage, off + i * stride + k) for k in range(n)]
             const = False
             # a second element of the same array is made available as an operand too
             j = (i + 1) % NV
-            o2 = Operand("%s[%d]" % (va, j), sh, [(w.storage, off + j * stride + k) for k in range(n)], True, "view:viewsarray")
+            v2 = P.fresh("a")
+            P.decls.append("auto %s = %s[%d];" % (v2, va, j))
+            o2 = Operand(v2, sh, [(w.storage, off + j * stride + k) for k in range(n)], True, "view:viewsarray")
             P.operands.append(o2)
         P.kinds.add("view:" + kind)
         op = Operand(v, sh, cells, not const, "view:" + kind)
@@ -326,9 +330,12 @@ class Gen:
         return self.view_operand(P, sh, want_mutable)
 
     # ---------------------------------------------------------- scalars
-    def scalar(self, P):
+    def scalar(self, P, divisor=False):
+        """a scalar factor: symbolic input or constant (divisors: symbols and non zero integers only)"""
         rng = self.rng
         r = rng.random()
+        if divisor and 0.4 <= r < 0.55:
+            r = 0.9
         if r < 0.4:
             name = "k%d" % len(P.scalars)
             P.scalars.append(name)
@@ -389,7 +396,7 @@ class Gen:
             e, te = self.expr(P, sh, depth - 1, dest)
             f, tf = self.expr(P, sh, depth - 1, dest)
             return "(%s) %s (%s)" % (e, "+" if k == "add" else "-", f), (k, te, tf)
-        s, ts = self.scalar(P)
+        s, ts = self.scalar(P, divisor=(k == "divs"))
         e, te = self.expr(P, sh, depth - 1, dest)
         if k == "smul":
             return "%s * (%s)" % (s, e), ("smul", ts, te)
@@ -412,7 +419,7 @@ class Gen:
             r = rng.random()
             if r < 0.12:
                 op = rng.choice(["*=", "/="])
-                s, ts = self.scalar(P)
+                s, ts = self.scalar(P, divisor=(op == "/="))
                 P.ops.add(op)
                 P.stmts.append(("%s %s %s;" % (dest.cxx, op, s), dest, op, ts))
             else:
